@@ -168,6 +168,7 @@ func initZZ() {
 		fr.e.MaxSwitches = int(asInt64(a[1]))
 		return nil
 	})
+	Z("SchedChannelsOnly", func(fr *frame, a []value) value { fr.e.schedOnlyChan = a[0].(bool); return nil })
 	Z("SelectExplore", func(fr *frame, a []value) value { fr.e.selectExplore = a[0].(bool); return nil })
 	Z("PermuteMaps", func(fr *frame, a []value) value { fr.e.permuteMaps = a[0].(bool); return nil })
 	Z("NondetCount", func(fr *frame, a []value) value { return fr.e.nondetUsed[strArg(a[0])] })
